@@ -126,3 +126,89 @@ func (p *pkgInfo) putFuncFacts() []putFunc {
 	}
 	return res
 }
+
+// Deferred releases: a local list that a release statement ranges over (`for _, e := range L { Put(e) }`)
+// and every site `L = append(L, x, y…)` that fills it. For each such site: is the element taken out
+// of the container it came from in the same pass — i.e. is there, after the append in an enclosing
+// block of the same function, a statement `C = append(C[:i], C[j:]...)` or `C = C[:k]` (re-slicing
+// deletion)? Only then can the final release of the containers' remaining elements and the release
+// of L be disjoint. (That an element occurs in one container only, and once, is not syntactic.)
+type deferredRelease struct {
+	fn, list, pos string
+	args          []string
+	deletionPos   string
+}
+
+func (p *pkgInfo) deferredReleases() []deferredRelease {
+	var res []deferredRelease
+	for _, u := range p.units {
+		lists := map[string]bool{}
+		ast.Inspect(u.body, func(n ast.Node) bool {
+			if rs, ok := n.(*ast.RangeStmt); ok && p.releaseOnly(rs) {
+				if id, ok := rs.X.(*ast.Ident); ok {
+					lists[id.Name] = true
+				}
+			}
+			return true
+		})
+		if len(lists) == 0 {
+			continue
+		}
+		isDeletion := func(s ast.Stmt) bool {
+			as, ok := s.(*ast.AssignStmt)
+			if !ok || as.Tok != token.ASSIGN || len(as.Lhs) != 1 || len(as.Rhs) != 1 {
+				return false
+			}
+			l := p.render(as.Lhs[0])
+			switch r := as.Rhs[0].(type) {
+			case *ast.SliceExpr:
+				return p.render(r.X) == l
+			case *ast.CallExpr:
+				if id, ok := r.Fun.(*ast.Ident); ok && id.Name == "append" && len(r.Args) == 2 && r.Ellipsis.IsValid() {
+					a, ok1 := r.Args[0].(*ast.SliceExpr)
+					b, ok2 := r.Args[1].(*ast.SliceExpr)
+					return ok1 && ok2 && p.render(a.X) == l && p.render(b.X) == l
+				}
+			}
+			return false
+		}
+		var stack []ast.Node
+		ast.Inspect(u.body, func(n ast.Node) bool {
+			if n == nil {
+				stack = stack[:len(stack)-1]
+				return true
+			}
+			if as, ok := n.(*ast.AssignStmt); ok && len(as.Lhs) == 1 && len(as.Rhs) == 1 {
+				if id, ok := as.Lhs[0].(*ast.Ident); ok && lists[id.Name] {
+					if c, ok := as.Rhs[0].(*ast.CallExpr); ok && len(c.Args) >= 2 {
+						if f, ok := c.Fun.(*ast.Ident); ok && f.Name == "append" && p.render(c.Args[0]) == id.Name {
+							d := deferredRelease{fn: u.display, list: id.Name, pos: p.pos(as)}
+							for _, a := range c.Args[1:] {
+								d.args = append(d.args, p.render(a))
+							}
+							full := append(append([]ast.Node{}, stack...), n)
+							for k := len(full) - 2; k >= 0 && d.deletionPos == ""; k-- {
+								list := stmtList(full[k])
+								after := false
+								for _, s := range list {
+									if ast.Node(s) == full[k+1] {
+										after = true
+										continue
+									}
+									if after && isDeletion(s) {
+										d.deletionPos = p.pos(s)
+										break
+									}
+								}
+							}
+							res = append(res, d)
+						}
+					}
+				}
+			}
+			stack = append(stack, n)
+			return true
+		})
+	}
+	return res
+}
